@@ -267,9 +267,14 @@ OpAddFact(mr, mw, ro, op) ==
   LET l == op.loc  now == op.now
       g == Gate(<<GWrite(mr[l], now, ro[l], op.wk), GCap(mr[l]), GEnabled(mr[l], now)>>)
       a == StateAdd(mw[l], op.id, op.rid, op.val, now)
+      \* a fact shaped like a rule ({"rule": ...}) that is no valid rule: the indexed state refuses it (it
+      \* cannot index it), the linear state stores it as the fact it is; no statement prefers either, so
+      \* both are allowed -- a refusal changes nothing
+      lame == Has(op.val, "rule") /\ ~ValidRule(op.val.m["rule"])
   IN IF g # "ok" THEN {Out(mw, ro, Resp(g))}
      ELSE IF a.c # "ok" THEN {Out(mw, ro, Resp(a.c))}
      ELSE {Out(SetLoc(mw, l, a.m), ro, [R0 EXCEPT !.id = a.id])}
+          \cup (IF lame THEN {Out(mw, ro, Resp("error"))} ELSE {})
 
 \* removing an id that is not there: the code still removes what is declared
 \* to be deleted with it; the statement of the cascade speaks of deleted items
@@ -558,8 +563,19 @@ StepR(mr, mw, ro, op) ==
 
 \* All outcomes of op when the lazy purges G (location -> expired ids) happen
 \* during it.
+\* A search purges what it finds expired while it walks the facts, and a purge takes the dependents of
+\* the expired item along.  A dependent the walk has passed before it meets the expired item is in the
+\* answer, one it would have passed later is not: the answer lies between what the fully purged
+\* location holds and what the location held before any purge (expired items invisible in both).
+SearchLimbo(mem, ro, op, G) ==
+  LET none == [a \in DOMAIN G |-> {}]
+      lo == {o \in StepR(PurgeAll(mem, G), PurgeAll(mem, G), ro, op) : o.resp.c = "ok"}
+      hi == {o \in StepR(PurgeAll(mem, none), PurgeAll(mem, G), ro, op) : o.resp.c = "ok"}
+  IN UNION {{[o EXCEPT !.resp.found = o.resp.found \cup X] : X \in SUBSET (h.resp.found \ o.resp.found)} : o \in lo, h \in hi}
+
 Step(mem, ro, op, G) ==
   UNION {StepR(PurgeAll(mem, G1), PurgeAll(mem, G), ro, op) : G1 \in SubG(G)}
+  \cup (IF op.op = "SearchFacts" /\ \E a \in DOMAIN G : G[a] # {} THEN SearchLimbo(mem, ro, op, G) ELSE {})
 
 -----------------------------------------------------------------------------
 (* Named deviations: what the code is known to do where it breaks a        *)
